@@ -10,7 +10,8 @@
 
    [protocols] = UDP, TCP and HTTP server handlers, the gnet handler (packing succeeds), the pipeline exchange
    (reply crosses the 1-buffered channel), the reuse exchange AFTER the D14 fix, the QUIC exchange (with quic-go's
-   CancelWrite contract), the cache entry recycling (entry lock + key re-check).
+   CancelWrite contract), the cache entry recycling (entry lock + key re-check), the DoH exchange (make-allocated query
+   string handed over to the round-trip goroutine).
 
    PARTIAL with respect to the property text: data-race freedom of arbitrary Go code is a runtime property; these
    theorems cover the ownership protocols as modelled; the poison hook and the race detector sample real schedules
@@ -92,6 +93,22 @@ Theorem C20_reuse_payload_fixed : forall s, reach Pown_reuse_fixed s -> viol s =
 Proof. exact reuse_fixed_safe. Qed.
 Print Assumptions C20_reuse_payload_fixed.
 
+(* DoH: in the code as it is, the query string handed to the HTTP round-trip goroutine is make()-allocated and handed over
+   ([Pown_doh false] is a member of [protocols]: violation-free in every interleaving).  If that buffer came from the pool
+   with a deferred release in ExchangeContext ("pooling optimisation"), the explicit schedule
+     caller builds rawQuery and starts the goroutine;  context ends while the dial is pending;  Done arm;  deferred
+     ReleaseBuf(rawQuery);  [another request takes the buffer;]  connection ready: net/http writes the request from it
+   reaches a use-after-release / an access to another owner's buffer: the goroutine outlives the call, exactly as in D14. *)
+Theorem C20_doh_pooled_query_refuted :
+  (exists s, own_run (Pown_doh true) (own_init (Pown_doh true)) doh_schedule = Some s /\ reach (Pown_doh true) s /\ viol s = 1) /\
+  (exists s, own_run (Pown_doh true) (own_init (Pown_doh true)) doh_schedule_env = Some s /\ reach (Pown_doh true) s /\ viol s = 2).
+Proof. exact doh_pooled_refuted. Qed.
+Print Assumptions C20_doh_pooled_query_refuted.
+
+Theorem C20_doh_current_safe : forall s, reach (Pown_doh false) s -> viol s = 0.
+Proof. exact doh_safe. Qed.
+Print Assumptions C20_doh_current_safe.
+
 (* the other two mechanisms named by the property are load-bearing as well *)
 Theorem C20_cache_recheck_needed_refuted : exists s, reach (Pown_cache false) s /\ viol s = 4.
 Proof. exact cache_recheck_needed. Qed.
@@ -106,11 +123,14 @@ Print Assumptions C20_pipeline_double_release_refuted.
 Example C20_example_runs :
   own_verdict 1 0 = Some 0 /\ own_verdict 1 1 = Some 0 /\ own_verdict 1 3 = Some 0 /\
   own_verdict 0 0 = Some 0 /\ own_verdict 0 1 = Some 1 /\ own_verdict 0 2 = Some 2 /\
-  own_verdict 2 1 = Some 0 /\ pipe_verdict false 0 = Some 0 /\ pipe_verdict false 1 = Some 0.
+  own_verdict 2 1 = Some 0 /\ pipe_verdict false 0 = Some 0 /\ pipe_verdict false 1 = Some 0 /\
+  doh_verdict false 0 = Some 0 /\ doh_verdict false 1 = Some 0 /\ doh_verdict false 3 = Some 0 /\
+  doh_verdict true 0 = Some 0 /\ doh_verdict true 1 = Some 1 /\ doh_verdict true 2 = Some 2.
 Proof. vm_compute. repeat split. Qed.
 
 Example C20_example_state_spaces :
-  map (fun P => 100 <? length (states P)) protocols = [true; true; true; true; true; true; true; true] /\
+  map (fun P => 80 <? length (states P)) protocols = [true; true; true; true; true; true; true; true; true] /\
   check Pown_reuse_pinned (states Pown_reuse_pinned) = false /\ check Pown_udp_alias (states Pown_udp_alias) = false /\
-  check (Pown_gnet false) (states (Pown_gnet false)) = false /\ check (Pown_cache false) (states (Pown_cache false)) = false.
+  check (Pown_gnet false) (states (Pown_gnet false)) = false /\ check (Pown_cache false) (states (Pown_cache false)) = false /\
+  check (Pown_doh true) (states (Pown_doh true)) = false.
 Proof. vm_compute. repeat split. Qed.
